@@ -9,6 +9,12 @@ CHECKS = {
              text="Generated search: random programs of point/scalar API calls with every aliasing pattern, on all exposed groups, compared step by step with an unaliased twin execution; a finite op x aliasing-pattern table is enumerated per group with sampled operand values. Exploration, not proof: absence of a violation is only claimed for the explored programs.",
              note="Trusted: MarshalBinary/UnmarshalBinary round trip (C03) is used to re-create unaliased operands; rapid v1.3.0; unsupported methods (documented panics) are not generated.", ref="4/C05"),
 }
+CHECKS["C01"] = dict(technique="property-based testing (rapid): metamorphic group/scalar-action identities over edge-biased operands in all exposed groups + differential against math/big curve models",
+  text="Generated search over (group, scalars, points): 24 algebraic identities per case, each computed along two API paths and compared by Equal and by encoding, plus comparison with an independent arbitrary-precision Edwards/Weierstrass model for Ed25519 (6 instances), P-256, BN256/BN254 G1 and BLS12-381 G1 (3 back-ends). Exploration only.",
+  note="Trusted: math/big; the harness' curve constants (self-checked against the library generators at start-up); rapid. GT/G2 of the pairing groups have no independent model - only the identities.", ref="4/C01")
+CHECKS["C02"] = dict(technique="property-based testing (rapid): model-based lock-step programs of scalar operations against math/big, in the default and the constantTime build",
+  text="Generated programs over three scalar registers run in lock-step with a math/big model of Z_q for every scalar implementation (Ed25519 limbs, mod.Int over big.Int and over bigmod for 8 moduli x both byte orders, CIRCL, gnark, all group scalar types incl. composite-order 8q); canonical encoding and Equal are checked after every step; Pick is checked for range, repeatability and dependence on consumed bytes only. Exploration only.",
+  note="Trusted: math/big, rapid. Inv/Div only for invertible divisors. Runs the same test file under -tags constantTime.", ref="4/C02")
 NOT_YET = {}
 
 def main():
